@@ -81,9 +81,9 @@ META = {
         "technique": "property-based testing (rapid) with harness-controlled interleaving points, end-state oracle",
     },
     "C15": {
-        "text": "Differential test of GetAllDroppedObj() on generated catalogs written into a real etcd against a reference function derived from the statement, compared as whole maps (no missing, no extra, right horizon). Found the stale database name for partitions without a target (fixed). Ids may cross a power of ten within a catalog (listing order differs from creation order).",
+        "text": "Differential test of GetAllDroppedObj() on generated catalogs written into a real etcd against a reference function derived from the statement, compared as whole maps (no missing, no extra, right horizon). Found the stale database name for partitions without a target (fixed). Ids may cross a power of ten within a catalog (listing order differs from creation order). TestC15_MovingSource owns the interleaving of the snapshot's five reads with writes of the source (saved time advanced, a dropped name created again before a drawn read) and checks that no entry carries a horizon at or above the creation time of a live incarnation of the final catalog.",
         "design_ref": "DESIGN.md section 4 C15",
-        "note": "Real etcd + real EtcdOp; target is a fake api.TargetAPI.",
+        "note": "Real etcd + real EtcdOp; target is a fake api.TargetAPI. The moving-source test reaches the client inside EtcdOp by reflection (no hook in the repository) and judges safety only, not completeness of the table.",
         "technique": "property-based testing (rapid), differential against reference function",
     },
     "C10": {
